@@ -148,9 +148,14 @@ func (c *checker) run(id string) int {
 	}
 	known, _ := c.knownFor(id)
 	var knownIDs []string
+	knownLabel := map[string]knownFinding{}
 	for _, k := range known {
 		knownIDs = append(knownIDs, k.ID)
+		if strings.HasPrefix(k.Label, "race:") {
+			knownLabel[k.Label] = k
+		}
 	}
+	nativeRaces := map[string]map[string]bool{}
 	var sums []harnessSummary
 	var inconcl []string
 	var violLines []string
@@ -226,6 +231,30 @@ func (c *checker) run(id string) int {
 				continue
 			}
 			if seen[v.Label] {
+				continue
+			}
+			if strings.HasPrefix(v.Label, "race:") {
+				seen[v.Label] = true
+				if k, ok := knownLabel[v.Label]; ok {
+					knownLines = append(knownLines, fmt.Sprintf("KNOWN-FINDING: property=%s %s %s", id, k.ID, k.Description))
+					continue
+				}
+				// an unlisted race: confirm with the Go race detector if possible
+				how := "happens-before monitor on a pinned schedule"
+				if c.native {
+					if _, done := nativeRaces[h]; !done {
+						pairs, _ := nat.runRace(h, 30, c.tierN())
+						nativeRaces[h] = pairs
+					}
+					pair := v.Label[strings.Index(v.Label[6:], ": ")+8:]
+					if nativeRaces[h][pair] {
+						how = "also reported by the Go race detector on the natively compiled harness"
+					}
+				}
+				rc := replayCase{Property: id, Harness: h, Label: v.Label, Inputs: v.Inputs, Kinds: v.Kinds, Sched: v.Sched, Tier: c.tierN(), Detail: how, kind: "violation"}
+				path := c.writeReplay(rc)
+				stubViol = append(stubViol, fmt.Sprintf("VIOLATION property=%s replay=%s", id, path))
+				fmt.Fprintf(os.Stderr, "violation: harness=%s %s (%s) inputs=%v sched=%v\n", h, v.Label, how, v.Inputs, v.Sched)
 				continue
 			}
 			seen[v.Label] = true
@@ -421,6 +450,14 @@ func (c *checker) validateAgainstEngine(prog *gosym.Program, rc replayCase, o na
 	res := gosym.RunPinnedOnce(prog, rc.Harness, o.Drawn, nil, c.tierN())
 	engOutcome := "ok"
 	label := ""
+	// reports of the happens-before monitor are not harness outcomes
+	var hv []gosym.Violation
+	for _, v := range res.Violations {
+		if !strings.HasPrefix(v.Label, "race:") {
+			hv = append(hv, v)
+		}
+	}
+	res.Violations = hv
 	switch {
 	case len(res.Violations) > 0:
 		engOutcome, label = "violated", res.Violations[0].Label
